@@ -626,16 +626,21 @@ void run_driver_direct(Engine& E, verif::Rng& r, Case& c, FieldT const& field, b
         Verdict v;
         bool untestable = false;
         judge_advance(a, c.opts, c.integ, fr, true, v, &untestable);
-        if (at_map_edge && !v.findings.empty())
+        if (at_map_edge)
         {
-            // start on the last grid plane of the map: a distinct site, one key
-            std::string all;
+            // start exactly on the last grid plane of the map.  The plane belongs to the
+            // outside (zero field) since the repair of RZMapFieldParamsData::valid, so the field
+            // is discontinuous at the start point and the analytic-helix / momentum oracles of a
+            // uniform field do not apply; what remains decidable here is that the advance stays
+            // finite and inside its step range (the values on the plane itself are judged by
+            // field_map_check.hh, which also owns the key of the repaired defect)
+            std::vector<Finding> keep;
             for (auto& f : v.findings)
-                all += f.key.substr(4) + ": " + f.detail + " | ";
-            v.findings.clear();
-            v.add("C08/rzmap/start-on-upper-grid-plane",
-                  fmt("z == max_z = %.17g (valid() accepts it, find_interp requires z < max_z): ", edge_z)
-                      + all.substr(0, 500));
+                if (f.key.find("/non-finite-state/") != std::string::npos
+                    || f.key.find("/step-range/") != std::string::npos)
+                    keep.push_back(f);
+            v.findings.swap(keep);
+            untestable = false;
         }
         if (untestable)
         {
@@ -648,6 +653,8 @@ void run_driver_direct(Engine& E, verif::Rng& r, Case& c, FieldT const& field, b
             v.cell = std::string("driver/") + integ_name(c.integ) + "/" + field_name(c.field)
                      + (a.req <= c.opts.minimum_step ? "/quick" : "/adaptive") + (centred ? "/axis-centred" : "")
                      + "/turn=1e" + std::to_string(dec);
+            if (at_map_edge)
+                v.cell = std::string("driver/") + integ_name(c.integ) + "/map-edge-start(range+finite only)";
             json w;
             if (!v.findings.empty() || E.verbose)
             {
